@@ -30,7 +30,7 @@ m = {
 for p in props:
     pid = p["id"]
     c = conf.get(pid)
-    if not c or c.get("disabled"):
+    if not c or c.get("disabled") or not c.get("ready"):
         m["not_applicable"].append({"property_id": pid, "reason": (c or {}).get("disabled") or "check under construction in this session; not yet claimed"})
         continue
     m["checks"].append({
